@@ -723,33 +723,58 @@ pub fn run(tier: Tier) -> i32 {
         rep.note("sched_sites", v["sites"].clone());
     }
     rep.sample(json!({"programs": ["synthesize(u1)", "synthesize(u2)"], "schedule": "agent 0 runs to its 17th point, agent 1 preempts and runs to completion, agent 0 finishes"}));
-    // ---------- supplementary free-running pass (never establishes absence) ----------
-    if tier == Tier::Thorough {
-        let e = Arc::new(engine_kind(9));
+    // ---------- supplementary free-running pass (sampling; never establishes absence, can only add violations) ----------
+    // Real parallelism reaches interleavings between two hook sites (e.g. inside a lock-protected helper a change
+    // adds), which the cooperative scheduler cannot produce. Every round uses a freshly built engine shared by all
+    // threads (so engine-held state starts cold); the reference comes from a different engine.
+    {
         let corpus = labels::corpus();
-        let u: Vec<String> = corpus[40..43].to_vec();
-        let want = synth(&e, &u).unwrap_or_default();
-        let bad = AtomicU64::new(0);
-        std::thread::scope(|s| {
-            for t in 0..16 {
-                let e = e.clone();
-                let u = u.clone();
-                let want = &want;
-                let bad = &bad;
-                s.spawn(move || {
-                    for _ in 0..(2 + t % 3) {
-                        if let Ok(w) = synth(&e, &u) {
-                            if !bits_eq(&w, want) {
-                                bad.fetch_add(1, Ordering::Relaxed);
+        let cases: Vec<(usize, Vec<String>, usize)> = vec![(9, corpus[0..tier.pick(6, 12)].to_vec(), tier.pick(6, 20)), (0, utts[1].clone(), tier.pick(20, 100)), (1, utts[1].clone(), tier.pick(20, 100))];
+        let mut total_runs = 0u64;
+        let mut mismatches = 0u64;
+        for (kind, u, rounds) in &cases {
+            let reference = synth(&engine_kind(*kind), u).unwrap_or_default();
+            for round in 0..*rounds {
+                let e = Arc::new(engine_kind(*kind));
+                let nthr = 8usize;
+                let barrier = Arc::new(std::sync::Barrier::new(nthr));
+                let bad = AtomicU64::new(0);
+                std::thread::scope(|s| {
+                    for t in 0..nthr {
+                        let e = e.clone();
+                        let barrier = barrier.clone();
+                        let bad = &bad;
+                        let reference = &reference;
+                        s.spawn(move || {
+                            let r = catch(|| {
+                                if (t + round) % 3 == 2 {
+                                    // a clone used concurrently with the original
+                                    let c = (*e).clone();
+                                    barrier.wait();
+                                    c.synthesize(&u[..]).ok()
+                                } else {
+                                    let g = e.generator(&u[..]).ok();
+                                    barrier.wait();
+                                    g.map(|g| g.generate_all())
+                                }
+                            });
+                            match r {
+                                Ok(Some(w)) if bits_eq(&w, reference) => {}
+                                _ => {
+                                    bad.fetch_add(1, Ordering::Relaxed);
+                                }
                             }
-                        }
+                        });
                     }
                 });
+                total_runs += nthr as u64;
+                mismatches += bad.load(Ordering::Relaxed);
             }
-        });
-        rep.note("free_running_16_threads", json!({"runs": 16, "mismatches": bad.load(Ordering::Relaxed), "note": "supplementary sampling pass on V0; can only add violations"}));
-        if bad.load(Ordering::Relaxed) > 0 {
-            rep.violation("free-run-output", "16 free-running threads on one shared V0 engine produced differing waveforms", json!({"part": "free-run", "labels": u}));
+        }
+        rep.eval(total_runs);
+        rep.note("free_running_threads", json!({"thread_runs": total_runs, "mismatches": mismatches, "note": "supplementary sampling pass (8 real threads per round on a freshly built shared engine, barrier start); can only add violations"}));
+        if mismatches > 0 {
+            rep.violation("free-run-output", format!("{} of {} free-running concurrent syntheses on one shared (freshly built) engine differ from the single-threaded waveform", mismatches, total_runs), json!({"part": "free-run", "note": "real threads; not schedule-replayable"}));
         }
     }
     rep.sample_last(json!({"setter_history": ["Gv(1, 1e300)", "Rate(18446744073709551615)", "<canonical assignment>"]}));
